@@ -304,8 +304,18 @@ def gatewayCase (hdr : String) (lines : List String) : List String :=
     let tr := implTrace lines
     let mon := fun (p : String) (vs : List Spec.Viol) => vs.map fun v => s!"MON {p} {v.sig} case={caseId} {v.detail}"
     let vs0809 := Spec.c0809 c.cfg tr
+    -- C05 / C32 on the gateway: predefined and short IDs must read back, on the other side, as the same name
+    let vs02 := Spec.c02 c.cfg tr
+    let vs01 := Spec.c01 c.cfg tr
+    let has := fun (s sub : String) => (s.splitOn sub).length > 1
+    let routing := fun (tits : List String) =>
+      ((vs02.filter fun v => (v.sig == "client-reads-other-name" || v.sig == "client-cannot-resolve-topic-id") &&
+          tits.any fun t => has v.detail s!"tit={t} ").map fun v => { v with sig := "gateway-to-client/" ++ v.sig }) ++
+      ((vs01.filter fun v => (v.sig == "wrong-topic-name" || v.sig == "forwarded-undenoted-topic-id") &&
+          tits.any fun t => has v.detail s!"tit={t} ").map fun v => { v with sig := "client-to-broker/" ++ v.sig })
     let ms :=
-      mon "C01" (Spec.c01 c.cfg tr) ++ mon "C03" (Spec.c03 c.cfg tr) ++ mon "C04" (Spec.c04 c.cfg tr) ++
+      mon "C01" vs01 ++ mon "C02" vs02 ++ mon "C05" (routing ["1"]) ++ mon "C32" (routing ["1", "2"]) ++
+      mon "C16" (Spec.c16 c.cfg tr) ++ mon "C03" (Spec.c03 c.cfg tr) ++ mon "C04" (Spec.c04 c.cfg tr) ++
       mon "C06" (Spec.c06 c.cfg tr) ++ mon "C07" (Spec.c07 c.cfg tr) ++
       mon "C08" ((vs0809.filter fun v => v.sig.startsWith "C08:").map fun v => { v with sig := (v.sig.drop 4).toString }) ++
       mon "C09" ((vs0809.filter fun v => v.sig.startsWith "C09:").map fun v => { v with sig := (v.sig.drop 4).toString }) ++
